@@ -60,3 +60,12 @@ chk("C20", "model_checking",
     "DeferredCarWriter with result, callback log and output bytes compared after every step, and the final output compared with a direct writer.",
     "Exhaustive within: histories of 5 (6) operations over 8 operations, 5 configurations. " + TB,
     "TLA+ state machine + TLC behaviours replayed on the real deferred writer", "DESIGN.md §3 C20")
+chk("C06", "fault_enumeration",
+    "Every crash point (operation boundary and byte within every write) of recorded real sessions is materialised, reopened with the real resumption code, continued and finalized; TLC validates each "
+    "observation against CrashObs!CrashSafe and the recorded write logs against the I-layer write protocol WriteProto.tla.",
+    "Exhaustive over crash points of 48 (120 thorough) sessions; crash = prefix of issued writes, last possibly torn. " + TB,
+    "recorded crash-point observations validated by TLC against a TLA+ relation; write-log trace validation against a TLA+ protocol spec", "DESIGN.md §3 C06")
+chk("C16", "fault_enumeration",
+    "A transient write fault is injected at every write of a session and every persisted-byte count, followed by every continuation; TLC validates each observation against FaultObs!FaultSafe.",
+    "Exhaustive over fault points of 8 (16) storage sessions incl. a plain stream target. " + TB,
+    "recorded fault-point observations validated by TLC against a TLA+ relation", "DESIGN.md §3 C16")
